@@ -169,7 +169,12 @@ func (tb *ATable) RegisterPropertyCallback(
 		*cbListPtr = make([]PropertyCallback, 0, 10)
 	}
 
-	*cbListPtr = append(*cbListPtr, theNewCallback)
+	// Cells are copied by value (Row.Add(c), Row.Cells()) and the copies share
+	// the backing array of their callback lists.  Appending in place could
+	// write into spare capacity which a sibling copy also considers its own
+	// next slot, so the list is always extended into fresh storage.
+	l := *cbListPtr
+	*cbListPtr = append(l[:len(l):len(l)], theNewCallback)
 	return nil
 }
 
